@@ -302,6 +302,11 @@ def library_panic(stderr):
                 if f.startswith(("main.", "verifharness", "created by main.")):
                     return None
                 # runtime, standard library, third-party frames: keep walking outwards
+            # the faulting goroutine never left the standard library (e.g. net/http's transport iterating a header map):
+            # a data-race abort on an object the library handed to the standard library. The harness hands none of its own
+            # maps to net/http, and does not die like this on the unchanged tree.
+            if l.startswith("fatal error: concurrent map"):
+                return l[:300] + " (faulting goroutine inside the standard library, on an object passed to it)"
             return None
     return None
 
